@@ -183,6 +183,12 @@ func needNewLineAfter(node Node) bool {
 	}
 }
 
+// Nothing can follow a line comment on its line.
+func isLineComment(node Node) bool {
+	c, ok := node.(*Comment)
+	return ok && c.Type() == token.LINECOMMENT
+}
+
 func isComment(node Node) bool {
 	_, ok := node.(*Comment)
 	return ok
@@ -206,7 +212,7 @@ func prettyPrintCompact(ps *PrintState, s Node, i int) bool {
 // Normal/long form print: Decide if using new line or space as separator.
 func prettyPrintLongForm(ps *PrintState, s Node, i int) {
 	if i > 0 || ps.IndentLevel > 1 {
-		if keepSameLineAsPrevious(s) || !needNewLineAfter(ps.prev) {
+		if (keepSameLineAsPrevious(s) || !needNewLineAfter(ps.prev)) && !isLineComment(ps.prev) {
 			log.Debugf("=> PrettyPrint adding just a space")
 			_, _ = ps.Out.Write([]byte{' '})
 			ps.IndentationDone = true
